@@ -341,3 +341,63 @@ Proof.
   - intros more H. pose proof (menabled_bounded more m H). lia.
 Qed.
 End MergeProofs.
+
+(* ---- a consumer that stops early is given a prefix of what a never-stopping consumer is given ------------------- *)
+Section MergeStopPrefix.
+Context {V : Type}.
+Variable less : V -> V -> res bool.
+Variable stopf : list (res V) -> bool.
+Notation never := (fun _ : list (res V) => false).
+Notation state := (list (res V) * list (res V) * @mcons V)%type.
+
+Definition crel1 (c1 c2 : @mcons V) : Prop := c1 = c2 \/ (is_done c1 = true /\ clog c1 = clog c2).
+
+Lemma emit_rel : forall h1 h2 log x next, crel1 (emit stopf h1 h2 log x next) (emit never h1 h2 log x next).
+Proof. intros. unfold emit. destruct (stopf (log ++ [x])); [right; split; reflexivity|left; reflexivity]. Qed.
+
+Lemma both_rel : forall a b log, crel1 (both less stopf a b log) (both less never a b log).
+Proof.
+  intros a b log. unfold both.
+  destruct (match a, b with ROk va, ROk vb => match less va vb with ROk t => (t, false) | RErr => (false, true) end | _, _ => (false, true) end) as [[|] err];
+    apply emit_rel.
+Qed.
+
+Lemma recv_rel : forall c x, crel1 (on_recv less stopf c x) (on_recv less never c x).
+Proof.
+  intros [a b w log] x. unfold on_recv. cbn [cw ha hb clog]. destruct w; try (left; reflexivity); try apply emit_rel.
+  - destruct b; [apply both_rel|left; reflexivity].
+  - destruct a; [apply both_rel|left; reflexivity].
+Qed.
+
+Lemma eof_rel : forall c, crel1 (on_eof stopf c) (on_eof never c).
+Proof.
+  intros [a b w log]. unfold on_eof. cbn [cw ha hb clog]. destruct w; try (left; reflexivity).
+  - destruct b; [apply emit_rel|left; reflexivity].
+  - destruct a; [apply emit_rel|left; reflexivity].
+Qed.
+
+Definition srel (t1 t2 : state) : Prop := t1 = t2 \/ (is_done (snd t1) = true /\ is_prefix (clog (snd t1)) (clog (snd t2))).
+
+Lemma lift_rel : forall la lb c1 c2, crel1 c1 c2 -> srel (la, lb, c1) (la, lb, c2).
+Proof. intros la lb c1 c2 [->|(Hd & Hl)]; [left; reflexivity|right; cbn [snd]; split; [exact Hd|rewrite Hl; apply prefix_refl]]. Qed.
+
+Lemma sstep_rel : forall t1 t2, srel t1 t2 -> srel (sstep less stopf t1) (sstep less never t2).
+Proof.
+  intros t1 t2 [->|(Hd & Hp)].
+  - destruct t2 as [[la lb] c]. unfold sstep. destruct (wants c) as [[|]|]; [| |left; reflexivity].
+    + destruct la; apply lift_rel; [apply eof_rel|apply recv_rel].
+    + destruct lb; apply lift_rel; [apply eof_rel|apply recv_rel].
+  - right. rewrite (sstep_done less stopf t1 Hd). split; [exact Hd|].
+    eapply prefix_trans; [exact Hp|apply sstep_prefix].
+Qed.
+
+Lemma siter_rel : forall n t1 t2, srel t1 t2 -> srel (siter less stopf n t1) (siter less never n t2).
+Proof. induction n as [|n IH]; intros t1 t2 H; [exact H|]. cbn [siter]. apply IH, sstep_rel, H. Qed.
+
+Lemma merge_seq_stop_prefix_lem : forall la lb, is_prefix (merge_seq less stopf la lb) (merge_seq less never la lb).
+Proof.
+  intros la lb. unfold merge_seq.
+  destruct (siter_rel (length la + length lb + 3) (la, lb, mcons_init) (la, lb, mcons_init) (or_introl eq_refl)) as [->|(_ & H)];
+    [apply prefix_refl|exact H].
+Qed.
+End MergeStopPrefix.
